@@ -1,1 +1,5 @@
-//! verification harness module included into `ntp-proto/src/lib.rs` (guarded hook).
+//! verification harness dispatcher for hook `verif_root` of crate `ntp_proto` (guarded hook).
+//! Add one line per property cluster:   #[path = "root_<cluster>.rs"] mod <cluster>;
+
+#[path = "root_f64.rs"]
+mod f64base;
